@@ -157,8 +157,13 @@ class Token(str):
         comment delimieters), false otherwise.
         """
         for pair in self.grammar.comments:
-            if self.startswith(pair[0]) and self.endswith(pair[1]):
-                return True
+            if self.startswith(pair[0]):
+                if self.endswith(pair[1]):
+                    return True
+                # A to-end-of-line comment on the last line of a text
+                # that has no final line end.
+                if pair[1] == "\n" and "\n" not in self:
+                    return True
         return False
 
     def is_quote(self) -> bool:
